@@ -186,9 +186,21 @@ def weed_set(rng, samples, k):
         if rng.random() < 0.5:
             piece = vlib.revcomp(piece)
         if rng.random() < 0.3 and len(piece) > k + 2:
-            p = rng.randint(1, len(piece) - 2)
+            # an N anywhere, or placed so that exactly k (or k+1) bases follow it to the end of the record
+            p = rng.choice([rng.randint(1, len(piece) - 2), len(piece) - k - 1, len(piece) - k - 2])
+            p = max(1, p)
             piece = piece[:p] + "N" + piece[p + 1:]
         recs.append(piece)
+    if rng.random() < 0.5:
+        # a record cut from a sample with an N placed so that exactly k bases follow it to the end of the record
+        s = rng.choice(rng.choice(samples))
+        if len(s) >= k + 4 and "N" not in s.upper():
+            a = rng.randint(0, len(s) - k - 4)
+            piece = s[a:a + k + 4 + rng.randint(0, min(5, len(s) - a - k - 4))]
+            if rng.random() < 0.5:
+                piece = vlib.revcomp(piece)
+            p = len(piece) - k - 1
+            recs.append(piece[:p] + rng.choice("Nn") + piece[p + 1:])
     if rng.random() < 0.4 or not recs:
         recs.append(gen.rand_seq(rng, rng.randint(k, 2 * k)))       # unrelated
     if rng.random() < 0.15:
